@@ -212,7 +212,7 @@ def run(ctx):
                        "exit status after an empty -files0-from name not judged (statement: diagnosed and skipped)", "valid UTF-8 names",
                        "follow modes -P/-H/-L/-follow, the option terminator '--' and -mindepth/-maxdepth are varied; runs whose reference walk meets a link loop are not judged"]
     nw = common.NCPU
-    n = ctx.scale(1600, 80000)
+    n = ctx.scale(1600, 640000)
     ctx.pmap(worker, [(k, n // nw, ctx.seed) for k in range(nw)])
     for key in ("shape:none", "shape:operands", "shape:files0-file", "shape:files0-stdin", "shape:equiv", "files0_no_final_nul", "files0_final_nul",
                 "files0_with_empty_names", "files0_with_dash_or_newline_names", "runs_with_missing_starting_point", "equivalence_pairs",
